@@ -33,10 +33,13 @@ def simulate(name, n, seed, kind="c", maxfuncs=5, maxbody=25, maxdepth=3, exprle
     return rs, exports
 
 
-def exhaustive(name, kind="c", maxfuncs=1, maxbody=5, maxdepth=2, withviol=False):
-    cfg = tlc.cfg_text(spec="VSpec" if withviol else "Spec", constants=consts(maxfuncs, maxbody, maxdepth, 0, False, kind, withviol),
+def exhaustive(name, kind="c", maxfuncs=1, maxbody=5, maxdepth=2, withviol=False, selmod=1):
+    """every derivation up to the bounds; selmod > 1: all are checked by TLC, a deterministic 1-in-selmod selection is exported"""
+    sel = selmod > 1 and not withviol
+    cfg = tlc.cfg_text(spec="VSpec" if withviol else "Spec",
+                       constants=consts(maxfuncs, maxbody, maxdepth, 0, False, kind, withviol) + ([f"XSelMod = {selmod}"] if sel else []),
                        invariants=INV + (["OneViolationInv"] if withviol else []))
-    r = tlc.run(name=name, root="ViolMC" if withviol else "NormMC", defs={}, cfg=cfg, workers=16, timeout=1800)
+    r = tlc.run(name=name, root="ViolMC" if withviol else ("NormSelMC" if sel else "NormMC"), defs={}, cfg=cfg, workers=16, timeout=3000)
     return [r], r.exports
 
 
